@@ -553,7 +553,7 @@ func c12client(c *evid.Ctx) {
 				out = append(out, dht.NewAddr(order[i].addr))
 			}
 			return out, nil
-		}, QueryResendDelay: func() time.Duration { return 20 * time.Millisecond }})
+		}, QueryResendDelay: func() time.Duration { return 30 * time.Second }}) // every simulated node answers: nothing needs a time-out
 		if err != nil {
 			c.Inconclusive(err.Error())
 			return
